@@ -76,7 +76,8 @@ fn model_fields(fs: &[(String, Ty)], xs: &[Val]) -> Option<Vec<(String, Tree)>> 
 
 pub fn key_string(kt: &KeyTy, k: &Val) -> Option<String> {
     match (kt, k) {
-        (KeyTy::Str, Val::Str(s)) | (KeyTy::NewtypeStr(_), Val::Str(s)) => {
+        (KeyTy::SpannedStr, Val::Spanned(_, _, x)) => key_string(&KeyTy::Str, x),
+        (KeyTy::Str, Val::Str(s)) | (KeyTy::NewtypeStr(_), Val::Str(s)) | (KeyTy::SpannedStr, Val::Str(s)) => {
             if crate::seam::is_private_key(s) {
                 None
             } else {
@@ -91,7 +92,7 @@ pub fn key_string(kt: &KeyTy, k: &Val) -> Option<String> {
 pub fn ok_root(ty: &Ty) -> bool {
     match ty {
         Ty::Struct(..) => true,
-        Ty::Map(KeyTy::Str | KeyTy::NewtypeStr(_) | KeyTy::UnitVariant(..), _) => true,
+        Ty::Map(KeyTy::Str | KeyTy::NewtypeStr(_) | KeyTy::UnitVariant(..) | KeyTy::SpannedStr, _) => true,
         Ty::Newtype(_, t) => ok_root(t),
         _ => false,
     }
@@ -233,7 +234,7 @@ pub fn refread(ty: &Ty, tree: &Tree) -> RefOut {
             let mut out = Vec::new();
             for (k, x) in kvs {
                 let kv = match kt {
-                    KeyTy::Str | KeyTy::NewtypeStr(_) => crate::types::Val::Str(k.clone()),
+                    KeyTy::Str | KeyTy::NewtypeStr(_) | KeyTy::SpannedStr => crate::types::Val::Str(k.clone()),
                     KeyTy::UnitVariant(_, vars) => match vars.iter().position(|v| v == k) {
                         Some(i) => crate::types::Val::Variant(i, Box::new(crate::types::Val::Unit)),
                         None => return Mismatch,
